@@ -40,6 +40,9 @@ func init() {
 	register("C04multi", func(s *simrt.Sim) *Result {
 		return RunRoute(s, RouteProfile{Name: "C04multi", Multi: true, Faults: true})
 	})
+	register("C08multi", func(s *simrt.Sim) *Result {
+		return RunRoute(s, RouteProfile{Name: "C08multi", Multi: true, Faults: true, Churn: true, Cleanup: true})
+	})
 	register("C04bias", func(s *simrt.Sim) *Result {
 		return RunRoute(s, RouteProfile{Name: "C04bias", Faults: true, BiasFaults: true, Cleanup: true})
 	})
